@@ -230,6 +230,8 @@ def main(argv):
         print("HARNESS-ERROR duplicate case ids")
         return 2
     timeout_s = getattr(mod, "TIMEOUT_S", {"quick": 900, "thorough": 7200})[tier]
+    # budgets are sized for >= 4 cores; fewer workers get proportionally more time, VERIF_TIMEOUT_SCALE scales it for slow machines
+    timeout_s *= max(1.0, 4.0 / max(1, workers)) * float(os.environ.get("VERIF_TIMEOUT_SCALE", "1") or 1)
     results, herr = run_workers(pid, cases, workers, timeout_s, "main")
     if herr:
         print("HARNESS-ERROR", herr[0][:3000])
